@@ -219,6 +219,39 @@ def run(ck):
             except ParameterError as e:
                 ck.count(("svp-param", i), nontrivial=False, bucket="binary helper refused: " + str(e)[:40])
 
+    # -------------------------------------------------------------------- helpers on the desorption branch of hysteretic point isotherms
+    for i in range(max(4, N // 8)):
+        isos_h = []
+        for ads, (k_a, k_d, nm) in zip(ADS, [(rng.uniform(0.5, 3), rng.uniform(4, 9), rng.uniform(3, 8)) for _ in range(2)]):
+            pa_ = np.geomspace(1e-3, 50, 60)
+            pd_ = pa_[::-1][1:]
+            la_ = nm * k_a * pa_ / (1 + k_a * pa_)
+            ld_ = nm * k_d * pd_ / (1 + k_d * pd_)
+            isos_h.append(pg.PointIsotherm(pressure=np.concatenate([pa_, pd_]), loading=np.concatenate([la_, ld_]), branch=[0] * len(pa_) + [1] * len(pd_), material="pgv-synth",
+                                           adsorbate=ads, temperature=300.0, pressure_mode="absolute", pressure_unit="bar", loading_basis="molar", loading_unit="mmol",
+                                           material_basis="mass", material_unit="g", temperature_unit="K"))
+        yv, ptot = rng.uniform(0.2, 0.8), logu(rng, 0.1, 5)
+        yy = np.array([yv, 1 - yv])
+        for br in ("ads", "des"):
+            ck.count(("helpers-branch", br, i), bucket="helpers on branch " + br)
+            try:
+                ref = np.asarray(pgi.iast_point(isos_h, yy * ptot, branch=br, warningoff=True), dtype=float)
+                frac = np.asarray(pgi.iast_point_fraction(isos_h, yy, ptot, branch=br, warningoff=True), dtype=float)
+                svp = pgi.iast_binary_svp(isos_h, [float(yy[0]), float(yy[1])], [ptot], branch=br, warningoff=True)
+                vle = pgi.iast_binary_vle(isos_h, ptot, branch=br, npoints=3, warningoff=True)
+                ys = np.linspace(0.01, 0.99, 3)
+                xs = []
+                for yk in ys:
+                    r_ = np.asarray(pgi.iast_point(isos_h, np.array([yk, 1 - yk]) * ptot, branch=br, warningoff=True), dtype=float)
+                    xs.append(r_[0] / (r_[0] + r_[1]))
+            except (CalculationError, ParameterError):
+                continue
+            sel = (ref[0] / yy[0]) / (ref[1] / yy[1])
+            if not np.allclose(frac, ref, rtol=1e-9) or not np.allclose(svp["selectivity"], [sel], rtol=1e-9) or not np.allclose(vle["x"][1:-1], xs, rtol=1e-9):
+                ck.fail_case({"kind": "hysteretic point", "components": 2, "clause": "helper differs from the point calculation on the requested branch", "branch": br},
+                             {"fractions": yy.tolist(), "total_pressure": ptot, "point": ref.tolist(), "iast_point_fraction": frac.tolist(),
+                              "selectivity": [float(v) for v in svp["selectivity"]], "expected_selectivity": float(sel)})
+
     # -------------------------------------------------------------------- spurious roots: whatever is returned must have fractions in [0,1]
     # (models whose spreading pressure is also defined for negative pressures - Quadratic, Henry - as a minor component in any position,
     #  with user starting guesses far from the solution)
